@@ -678,7 +678,7 @@ def gen_script_cases(rng, n):
 # ----------------------------------------------------------------------------- run
 def run(ctx):
     rng = ctx.rng
-    ctx.regen(["NatOrder", "RestartClamp", "EntropyBytes", "ScanCtl"])
+    ctx.regen(["NatOrder", "RestartClamp", "EntropyBytes", "ScanCtl", "RestartCtr"])
     ctx.prove()
     drv = ctx.model_driver()
     flavours = ["simd", "plain"] if not ctx.thorough() else ["simd", "plain", "asan"]
